@@ -116,10 +116,16 @@ def run(ctx):
 
     nf = facts("src/vector/backends/numpy.py", ctx.repo)
     af_ = nf.method("VectorNumpy", "__array_function__")
-    src = unparse(af_) if af_ is not None else ""
+    # every `if func is numpy.X:` arm (elif chain or a sequence of early returns) and what it returns
+    routes = {}
+    if af_ is not None:
+        for sub in ast.walk(af_):
+            if isinstance(sub, ast.If) and isinstance(sub.test, ast.Compare) and len(sub.test.ops) == 1 and isinstance(sub.test.ops[0], ast.Is) \
+                    and unparse(sub.test.left) == "func" and sub.body and isinstance(sub.body[-1], ast.Return) and sub.body[-1].value is not None:
+                routes.setdefault(unparse(sub.test.comparators[0]), []).append(unparse(sub.body[-1].value) if len(sub.body) == 1 else None)
     for fn_, call in (("numpy.sum", "_reduce_sum(*args, **kwargs)"), ("numpy.count_nonzero", "_reduce_count_nonzero(*args, **kwargs)"),
                       ("numpy.isclose", "type(self).isclose(*args, **kwargs)"), ("numpy.allclose", "type(self).allclose(*args, **kwargs)")):
-        ctx.ob("C17.numpy-routing", f"__array_function__[{fn_}]", f"func is {fn_}:\n        return {call}" in src, f"expected `func is {fn_}` -> `{call}`", None, "src/vector/backends/numpy.py")
+        ctx.ob("C17.numpy-routing", f"__array_function__[{fn_}]", routes.get(fn_) == [call], f"`func is {fn_}` returns {routes.get(fn_)}; expected `{call}`", None, "src/vector/backends/numpy.py")
     sm = nf.method("VectorNumpy", "sum")
     ssrc = unparse(sm) if sm is not None else ""
     ctx.ob("C17.numpy-routing", "VectorNumpy.sum", all(x in ssrc for x in ("numpy.sum(self", "axis=axis", "keepdims=keepdims")), "must forward self, axis, keepdims to numpy.sum", None, "src/vector/backends/numpy.py")
